@@ -2,7 +2,7 @@
 # Regression of the verifier itself: every seeded change under /verif/seeded is applied to a scratch
 # copy of /repo/src and the quick tier of the check(s) recorded as catching it is run against that copy
 # (VERIF_SEED=1).  One line per (change, property): CAUGHT / MISSED.  Nothing is written to /repo.
-# usage: regress_seeds.sh [jobs] [pattern]     output: stdout, summary at the end
+# usage: [REGRESS_RUNS=n] regress_seeds.sh [jobs] [pattern]     output: stdout, summary at the end
 set -u
 jobs=${1:-8}; pat=${2:-S}
 work=/tmp/regress.$$; mkdir -p $work
@@ -25,7 +25,7 @@ EOF
   rm -rf $work/src; cp -r /repo/src $work/src
   if ! patch -s -p1 -d $work < $d/patch.diff; then echo "$n PATCH-FAILED"; continue; fi
   for p in $props; do
-    out=$(cd $snap && LCM_SRC=$work/src VERIF_SEED=1 DSIM_JOBS=$jobs ./check $p --tier quick --no-minimise --no-evidence 2>&1 | grep -E "^(done|  violation)" | head -2 | cut -c1-160 | tr '\n' ' ')
+    out=$(cd $snap && LCM_SRC=$work/src VERIF_SEED=1 DSIM_JOBS=$jobs ./check $p --tier quick --no-minimise --no-evidence ${REGRESS_RUNS:+--runs $REGRESS_RUNS} 2>&1 | grep -E "^(done|  violation)" | head -2 | cut -c1-160 | tr '\n' ' ')
     case "$out" in
       *"violation class"*) echo "$n $p CAUGHT $out"; caught=$((caught+1));;
       *) echo "$n $p MISSED $out"; missed=$((missed+1));;
